@@ -565,5 +565,9 @@ func gen(r *vh.Rand, tier string) []string {
 	for i := 0; i < nEng/15; i++ {
 		out = append(out, fmt.Sprintf("grpc %d %d %d %s", r.Range(0, 2), r.PickInt([]int{20, 30}), r.PickInt([]int{-1, 0, 1, 3, 10}), r.Pick([]string{"-", "-", "all", "error"})))
 	}
+	// more tunnel-endpoint runs (appended last so that the cases above keep their place in the random stream)
+	for i := 0; i < nEng/10; i++ {
+		out = append(out, genEngConnect(r))
+	}
 	return out
 }
